@@ -104,20 +104,22 @@ Full statement / proved / missing
                       every assignment in it goes to its own state (the memo table `sc.values` keyed by identity,
                       `refIndex`, `path`), to a plain local or into storage it created (`decide` on family sercalls).
 * MUTABLEHASHVALUE AS AN OBJECT (`Model/ImmutMutable.lean`: one object whose storage `Put`/`PutAll` replace, plus the `Hash`
-                      methods it inherits by embedding; beyond the builder view of `Model/Coll.lean`):
+                      methods it inherits by embedding and — since /repo 1d333d3 — its own `Delete` / `DeleteAll` /
+                      `Entries` / `Unique`; beyond the builder view of `Model/Coll.lean`):
   `MutableResultsImmutable frozen` — FULL statement (a `def … : Prop`): whatever a history over a builder hands out that is
                       not the builder itself — every entry typed as an immutable value — reads at every later time as
                       it read when it was obtained.
-  `C08_mutable_results_partial` — proved for the code as it is (`frozen := false`): every answer with storage of its own
-                      (Keys, Values, Slice, Merge, Delete of a present key, DeleteAll with a match; literals) is never
-                      affected by later `Put`/`PutAll`.
-  `C08_mutable_alias_sites` — the ONLY answers that are not such values come from `Delete` / `DeleteAll` / `Unique` /
-                      `Entries` (the `return hv` sites) on a builder or on such an answer.
-  `C08_mutable_alias_refutes` — negation of the full statement for the code as it is: `m.Put(a, 1); u := m.Unique();
-                      m.Put(b, 2)` — `u`, typed `*Hash`, reads `{a => 1}` before and `{a => 1, b => 2}` after the
-                      second `Put` (known finding C08-mutable-hash-answers-itself; replayed on the implementation).
-  `C08_mutable_frozen_immutable` — the full statement holds when those four sites answer a copy (`frozen := true`): what a
-                      repair in the style of `freeze` achieves.
+  `C08_mutable_frozen_immutable` — the full statement, PROVED for the code as it is now (`frozen := true`: the four sites
+                      that used to `return hv` answer `hv.freeze()`).
+  `C08_mutable_sites_frozen`, `C08_mutable_impl` — the obligation over the regenerated idiom table (`mutFrozen sliceIdioms`:
+                      the four `MutableHashValue.<Method>/r0` rows exist and are fresh; removing an override removes its
+                      row) and the full statement instantiated with it.
+  `C08_mutable_results_partial` — for either behaviour: an answer with storage of its own is never affected later.
+  `C08_mutable_alias_sites` — the only answers that were not such values came from `Delete` / `DeleteAll` / `Unique` /
+                      `Entries`.
+  `C08_mutable_alias_changes_before_fix`, `C08_mutable_alias_refutes_before_fix` — witness of the repaired defect
+                      (finding C08-mutable-hash-answers-itself, fixed by 1d333d3): with `frozen := false`,
+                      `m.Put(a, 1); u := m.Unique(); m.Put(b, 2)` leaves `u`, typed `*Hash`, reading two entries.
 * missing / trusted — (1) the extractor's classification of Go expressions into idioms (DESIGN §5.4) — cross-checked on
                       every run by the storage-shape correspondence (which values share a backing array, read off the
                       real slice headers, against the model's headers); (2) nested containers inside a cell are pure
@@ -617,22 +619,23 @@ example : (mrun false ([.mnew, .put 0 (.str "a") (.int 1), .keys 0, .put 0 (.str
 example : (mstep false (mrun false (aliasHistory.take 2)) (.unique 0)).pool =
     (mrun false (aliasHistory.take 2)).pool ++ [.alias 0] := by rfl
 
-/-- the code as it is: `u` is a result (typed `*Hash`), holds one entry after step 2 and two after the second `Put` -/
-theorem C08_mutable_alias_changes :
+/-- BEFORE the fix 1d333d3 (`frozen := false`): `u` is a result (typed `*Hash`), holds one entry after step 2 and two
+    after the second `Put` -/
+theorem C08_mutable_alias_changes_before_fix :
     (mrun false (aliasHistory.take 3)).isResult 2 = true ∧
     (mrun false (aliasHistory.take 3)).read 2 = some [.ent (.str "a") (.int 1)] ∧
     (mrun false (aliasHistory.take 4)).read 2 = some [.ent (.str "a") (.int 1), .ent (.str "b") (.int 2)] := by
   refine ⟨by rfl, by rfl, by rfl⟩
 
-/-- … hence the full statement FAILS for the code as it is (known finding C08-mutable-hash-answers-itself) -/
-theorem C08_mutable_alias_refutes : ¬ MutableResultsImmutable false := by
+/-- … hence the full statement FAILED before the fix (finding C08-mutable-hash-answers-itself, fixed) -/
+theorem C08_mutable_alias_refutes_before_fix : ¬ MutableResultsImmutable false := by
   intro h
-  have h1 := h aliasHistory 2 3 4 (by decide) (by decide) (by decide) C08_mutable_alias_changes.1
-  rw [C08_mutable_alias_changes.2.1, C08_mutable_alias_changes.2.2] at h1
+  have h1 := h aliasHistory 2 3 4 (by decide) (by decide) (by decide) C08_mutable_alias_changes_before_fix.1
+  rw [C08_mutable_alias_changes_before_fix.2.1, C08_mutable_alias_changes_before_fix.2.2] at h1
   have := congrArg (Option.map List.length) h1
   simp at this
 
-/-- with the four `return hv` sites answering a copy (a repair in the style of `freeze`), the full statement holds -/
+/-- MAIN STATEMENT, for the code as it is now (the four sites answer `hv.freeze()`): the full statement holds -/
 theorem C08_mutable_frozen_immutable : MutableResultsImmutable true := by
   intro ops i j j' hij hjj hj hres
   unfold MState.isResult at hres
@@ -648,5 +651,23 @@ theorem C08_mutable_frozen_immutable : MutableResultsImmutable true := by
       cases this
     | obj o => rw [he] at hres; cases hres
     | mark m => rw [he] at hres; cases hres
+
+/-- obligation over the regenerated idiom table: `MutableHashValue` has its own `Delete`, `DeleteAll`, `Entries`, `Unique`,
+    each answering fresh storage -/
+theorem C08_mutable_sites_frozen : mutFrozen Pcore.Generated.sliceIdioms = true := by decide
+
+/-- the full statement for the behaviour the regenerated table selects (what the driver runs) -/
+theorem C08_mutable_impl : MutableResultsImmutable (mutFrozen Pcore.Generated.sliceIdioms) := by
+  rw [C08_mutable_sites_frozen]
+  exact C08_mutable_frozen_immutable
+
+/-- a table without one of the overrides selects the old behaviour -/
+example : mutFrozen (Pcore.Generated.sliceIdioms.filter (fun r => r.1 != "MutableHashValue.Unique/r0")) = false := by
+  decide
+
+/-- after the fix the history of the finding leaves `u` alone -/
+example : (mrun true (aliasHistory.take 4)).read 2 = some [.ent (.str "a") (.int 1)] ∧
+    (mrun true (aliasHistory.take 3)).isResult 2 = true := by
+  constructor <;> rfl
 
 end Pcore.Mut
